@@ -252,6 +252,13 @@ Case gen() {
     else if (kind == 1) paths.push_back(GEN::randomPath(2, 2, (int64_t)R, cx, 0));
     else paths.push_back(GEN::randomPath(3, 8, (int64_t)R, cx, 0));
   }
+  if (G::chance(2)) {
+    // large: one polyline of 80-250 vertices along a ring (strokes with hundreds of vertices: size-dependent behaviour)
+    ad = G::real(8.0, 300.0);
+    c.d["delta"] = ad;
+    paths = {GEN::ring((int)G::range(80, 250), G::sym(1000), G::sym(1000), 0.995 * 1e5, 1e5, G::coin())};
+    ST.count("large_polyline_80_to_250_vertices");
+  }
   c.p["paths"] = paths;
   c.p["samples"] = {OFS::samplePoints(paths, false, ad, kf, OFS::tolOf(c.d["at"], ad), 10)};
   return c;
